@@ -18,6 +18,7 @@ import (
 	"fmt"
 	"os"
 	"os/exec"
+	"runtime"
 	"strconv"
 	"strings"
 	"sync"
@@ -59,6 +60,11 @@ func main() {
 		logger.SetLevel(zapcore.ErrorLevel)
 	}
 
+	if *stress == 0 && *race == 0 {
+		// schedule replay runs one logical thread at a time anyway; one P makes sync.Pool hand the writer a seal has
+		// put back to the next seal (the usual case in production, and the one in which a leaked pooled slice shows)
+		runtime.GOMAXPROCS(1)
+	}
 	if *probe != "" {
 		runProbe(*probe)
 		return
